@@ -55,6 +55,9 @@ pub fn judge(cfg: &RunCfg, o: &Outcome, liveness: bool, family: &str) -> Judged 
         if all.contains("CORRUPT") {
             sigs.push(("safety/corrupt-data-delivered".into(), format!("an application read bytes the peer never sent: {all}")));
         }
+        if let Some(p) = o.replay_problems.first() {
+            sigs.push(("safety/replayed-packet-accepted".into(), format!("{p} ({} such events)", o.replay_problems.len())));
+        }
         if !o.finished {
             let phase = if o.terminated_ms.iter().any(|(s, _)| s == "client-handshaked") { "after-handshake" } else { "during-handshake" };
             sigs.push((
@@ -70,6 +73,7 @@ pub fn judge(cfg: &RunCfg, o: &Outcome, liveness: bool, family: &str) -> Judged 
             let ok = match cfg.workload {
                 Workload::Echo(_) | Workload::TwoStreams(_) => o.client.iter().all(|r| r.contains("intact:w-ok")) && !o.client.is_empty(),
                 Workload::UniEachWay(_) => o.client.iter().any(|r| r == "uni-send:ok") && o.client.iter().any(|r| r.contains("intact")),
+                Workload::Spaced => o.client.iter().filter(|r| r.contains("intact:w-ok")).count() == 3,
                 Workload::Datagrams(_) | Workload::Idle => true,
             };
             if !ok {
@@ -269,6 +273,48 @@ pub fn c02(args: &Args) -> i32 {
                 coverage(&s2, format!("all schedules with ≤ 2 deviations from {{drop, dup, delay}} (second: {second:?}) over the first {limit} datagrams")),
             );
         }
+        // replay profile: every datagram once duplicated at once and once replayed 1.5 s later,
+        // judged from the receiver's captured qlog (no second packet_received for the same number)
+        if name == "echo3k" || th {
+            let mut rcfg = if name == "echo3k" { let mut c = RunCfg::new(Workload::Spaced); c.idle_timeout_ms = 4000; c } else { cfg.clone() };
+            rcfg.qlog = QlogMode::Capture;
+            rcfg.horizon_s = 40;
+            let base = run_once(&rcfg, &[], Tail::None);
+            let mut prefixes = Vec::new();
+            for i in 0..base.wire.len() {
+                for f in [Fate::Dup, Fate::Replay(900), Fate::Replay(1500), Fate::Replay(2500)] {
+                    let mut p = vec![Fate::Deliver; i];
+                    p.push(f);
+                    prefixes.push(p);
+                }
+            }
+            let outs = par_map(&prefixes, |p| run_once(&rcfg, p, Tail::None));
+            let mut outcomes: BTreeMap<String, u64> = BTreeMap::new();
+            let mut logged = 0u64;
+            for (p, o) in prefixes.iter().zip(&outs) {
+                logged += o.events.len() as u64;
+                let j = judge(&rcfg, o, true, "C02");
+                *outcomes.entry(j.outcome_label).or_default() += 1;
+                for (sig, detail) in j.sigs {
+                    report.violation(&sig, &detail, json!({"sub": format!("replay/{name}"), "config": rcfg, "prefix": trim(p), "tail": "None"}));
+                }
+            }
+            let mut extra = serde_json::Map::new();
+            extra.insert("outcomes".into(), json!(outcomes));
+            extra.insert("qlog_events_inspected".into(), json!(logged));
+            report.sub(
+                &format!("replay/{name}"),
+                Coverage {
+                    evaluations: prefixes.len() as u64,
+                    distinct_nontrivial: prefixes.len() as u64,
+                    exhaustive: true,
+                    rule: "a long-lived connection (handshake, then three small echoes one virtual second apart): every datagram duplicated at once, and every datagram replayed 0.9 / 1.5 / 2.5 virtual seconds later; the receiver's captured qlog must never show two packet_received events for the same (space, packet number), nothing corrupt is read, nobody panics".into(),
+                    samples: vec![json!({"prefix": trim(&prefixes[prefixes.len() / 2]), "datagrams": outs[prefixes.len() / 2].wire.len()})],
+                    extra,
+                    ..Default::default()
+                },
+            );
+        }
         // safety profile: unbounded faults from datagram k on
         let n = s.baseline_len;
         let mut tails = Vec::new();
@@ -343,6 +389,8 @@ fn parse_fate(s: &str) -> Fate {
         Fate::Dup
     } else if s == "Delay" {
         Fate::Delay
+    } else if let Some(k) = s.strip_prefix("Replay(").and_then(|x| x.strip_suffix(')')) {
+        Fate::Replay(k.parse().unwrap_or(1500))
     } else if let Some(k) = s.strip_prefix("Trunc(").and_then(|x| x.strip_suffix(')')) {
         Fate::Trunc(k.parse().unwrap_or(0))
     } else if let Some(k) = s.strip_prefix("Flip(").and_then(|x| x.strip_suffix(')')) {
